@@ -275,6 +275,40 @@ func allocateEmpties(m protoreflect.Message, depth int) {
 	}
 }
 
+// shareContacts makes one *Person reachable through two paths of the same value.
+func shareContacts(m proto.Message) {
+	link := func(ps []*sbom.Person, qs []*sbom.Person) {
+		if len(ps) == 0 || len(qs) == 0 {
+			return
+		}
+		shared := &sbom.Person{Name: "shared-contact", Email: "shared@example.com", Contacts: []*sbom.Person{{Name: "below-shared"}}}
+		ps[0].Contacts = append(ps[0].Contacts, shared)
+		qs[len(qs)-1].Contacts = append(qs[len(qs)-1].Contacts, shared)
+	}
+	node := func(n *sbom.Node) {
+		link(n.Suppliers, n.Originators)
+		if len(n.Suppliers) >= 2 {
+			link(n.Suppliers[:1], n.Suppliers[1:])
+		}
+		if len(n.Suppliers) == 1 && len(n.Originators) == 0 {
+			p := n.Suppliers[0]
+			shared := &sbom.Person{Name: "shared-contact", Contacts: []*sbom.Person{{Name: "below-shared"}}}
+			p.Contacts = append(p.Contacts, shared, &sbom.Person{Name: "sibling", Contacts: []*sbom.Person{shared}})
+		}
+	}
+	switch v := m.(type) {
+	case *sbom.Node:
+		node(v)
+	case *sbom.NodeList:
+		for _, n := range v.Nodes {
+			node(n)
+		}
+	case *sbom.Person:
+		shared := &sbom.Person{Name: "shared-contact", Contacts: []*sbom.Person{{Name: "below-shared"}}}
+		v.Contacts = append(v.Contacts, shared, &sbom.Person{Name: "sibling", Contacts: []*sbom.Person{shared}})
+	}
+}
+
 // clipSlices reslices every slice reachable from v to its exact length.
 func clipSlices(v reflect.Value, depth int) { walkSlices(v, depth, false) }
 
@@ -762,6 +796,9 @@ func execC12(sc *core.Scenario) *core.Result {
 		m := valFrom(v)
 		if i%2 == 1 || sc.Run%3 == 0 {
 			allocateEmpties(m.ProtoReflect(), 0) // values built with NewNode()/NewNodeList() carry empty, non-nil collections
+		}
+		if sc.Run%4 == 1 {
+			shareContacts(m) // one person reachable twice inside the value (a DAG, not a tree)
 		}
 		if sc.Run%2 == 0 {
 			clipSlices(reflect.ValueOf(m), 0) // slices without spare capacity (len == cap), as literals and exact allocations have
